@@ -1,4 +1,5 @@
 """C12 — concurrent use of the relay is equivalent to some serial use"""
+from tiecommon import TIE_DENY, TIE_TTLCODE, TIE_NOTE, TIE_ASSUMPTION
 import re, subprocess
 import vlib
 
@@ -22,6 +23,10 @@ THEOREMS = [(f"C12.{n}", P) for n in ["all_wellLocked", "guarded_state_covered",
             ("Locks.reach_compatible", "Relay.Base.Locks"), ("LockSerial.serializes", "Relay.Base.LockSerial")]
 
 PKGS = ("internal/ttlcode", "internal/deny", "internal/chanmap", "internal/crossbar", "internal/access", "internal/relay")
+THEOREMS = THEOREMS + TIE_DENY + TIE_TTLCODE
+RULE = TIE_NOTE + RULE
+ASSUMPTIONS = ASSUMPTIONS + [TIE_ASSUMPTION]
+
 
 
 class StressMode(vlib.Mode):
